@@ -189,8 +189,9 @@ func runPlainC36(sp specC36) runResC36 {
 }
 
 var (
-	reExitC36   = regexp.MustCompile(`^(\d+) \+\+\+ exited with (\d+) \+\+\+`)
-	reKilledC36 = regexp.MustCompile(`^(\d+) \+\+\+ killed by SIGKILL \+\+\+`)
+	// strace pads the pid column to five characters: "9535  +++ killed ..." vs "13956 +++ killed ..."
+	reExitC36   = regexp.MustCompile(`^\s*(\d+)\s+\+\+\+ exited with (\d+) \+\+\+`)
+	reKilledC36 = regexp.MustCompile(`^\s*(\d+)\s+\+\+\+ killed by SIGKILL \+\+\+`)
 )
 
 // runStraceC36 runs the helper under strace. inject may be "" (trace only).
@@ -245,9 +246,10 @@ var (
 	straceOnceC36  sync.Once
 )
 
-// probeStraceC36 decides once per process whether strace kill injection works: the probe
-// helper must be reported killed on its fsync and must NOT have been killed without injection.
-func probeStraceC36(dir string) string {
+// probeStraceC36 only locates strace. Whether injection works is verified by every single
+// run (a crash point counts only with the kill evidence, the model only with a completed
+// un-injected trace), so a separate probe run is not needed.
+func probeStraceC36(string) string {
 	straceOnceC36.Do(func() {
 		p, err := exec.LookPath("strace")
 		if err != nil {
@@ -255,20 +257,7 @@ func probeStraceC36(dir string) string {
 			return
 		}
 		stracePathC36 = p
-		pd := filepath.Join(dir, "probe-dir")
-		_ = os.MkdirAll(pd, 0o755)
-		defer os.RemoveAll(pd)
-		sp := specC36{Mode: "probe", Repo: pd}
-		r1 := runStraceC36(sp, "fsync", "fsync:signal=SIGKILL:when=1", filepath.Join(pd, "log1"))
-		r2 := runStraceC36(sp, "fsync", "", filepath.Join(pd, "log2"))
-		switch {
-		case !r1.killed:
-			straceStateC36 = "unusable: injected probe was not killed: " + r1.broken
-		case !r2.completed || !strings.Contains(r2.log, "fsync("):
-			straceStateC36 = "unusable: un-injected probe did not complete: " + r2.broken
-		default:
-			straceStateC36 = "ok"
-		}
+		straceStateC36 = "ok"
 	})
 	return straceStateC36
 }
@@ -321,7 +310,7 @@ func genCaseC36(t *rapid.T) caseC36 {
 		rem -= p
 	}
 	c.Pre = rapid.SampledFrom([]string{"none", "none", "same", "other", "other"}).Draw(t, "pre")
-	c.DirExists = rapid.IntRange(0, 9).Draw(t, "dirmissing") >= 3
+	c.DirExists = rapid.IntRange(0, 9).Draw(t, "dirmissing") >= 4
 	if c.Type == backend.ConfigFile {
 		c.DirExists = true
 	}
@@ -344,7 +333,7 @@ func genCaseC36(t *rapid.T) caseC36 {
 	if c.Size > 65536 {
 		bounds = append(bounds, 32768, 32769, int64(c.Size)-1)
 	}
-	nk := verifkit.Scale(4, 10)
+	nk := verifkit.Scale(2, 10)
 	for i := 0; i < nk && len(bounds) > 0; i++ {
 		cand[bounds[rapid.IntRange(0, len(bounds)-1).Draw(t, "killidx")]] = true
 	}
@@ -354,10 +343,7 @@ func genCaseC36(t *rapid.T) caseC36 {
 	sort.Slice(c.KillAts, func(i, j int) bool { return c.KillAts[i] < c.KillAts[j] })
 	// strace write#n kills
 	if c.Size > 0 {
-		c.WriteNs = append(c.WriteNs, 1)
-		if len(c.Pieces) > 1 {
-			c.WriteNs = append(c.WriteNs, rapid.IntRange(2, len(c.Pieces)).Draw(t, "writen"))
-		}
+		c.WriteNs = append(c.WriteNs, rapid.IntRange(1, len(c.Pieces)).Draw(t, "writen"))
 	}
 	return c
 }
@@ -584,7 +570,7 @@ type sysEventC36 struct {
 }
 
 var (
-	reLineC36       = regexp.MustCompile(`^(\d+) +(.*)$`)
+	reLineC36       = regexp.MustCompile(`^\s*(\d+)\s+(.*)$`)
 	reCallC36       = regexp.MustCompile(`^([a-z_0-9]+)\((.*)\) += +(-?\d+|\?)(.*)$`)
 	reUnfinishedC36 = regexp.MustCompile(`^([a-z_0-9]+)\((.*) <unfinished \.\.\.>$`)
 	reResumedC36    = regexp.MustCompile(`^<\.\.\. ([a-z_0-9]+) resumed>(.*)$`)
@@ -888,8 +874,9 @@ func TestVerifC36Crash(t *testing.T) {
 			}
 			after(fmt.Sprintf("reader@%d", x), kind)
 		}
-		// completed run without tracer
-		if res := runPlainC36(fx.spec(-1)); res.completed {
+		// completed run without tracer (with strace available the traced run below is the completed run)
+		if strace == "ok" {
+		} else if res := runPlainC36(fx.spec(-1)); res.completed {
 			state, viol := fx.inspect()
 			st.Evals(1)
 			st.Class("kill=none(completed)", "state@completed:"+state)
@@ -956,6 +943,17 @@ func TestVerifC36Crash(t *testing.T) {
 			t.Logf("trace run: %s", res.broken)
 			_ = fx.reset()
 			return
+		}
+		{
+			state, viol := fx.inspect()
+			st.Evals(1)
+			st.Class("kill=none(completed)", "state@completed:"+state)
+			if viol == "" && !strings.HasPrefix(state, "final=new") {
+				viol = "Save returned success but the file does not have its final content"
+			}
+			if viol != "" {
+				fail("completed", "completed Save: %s (state %s)", viol, state)
+			}
 		}
 		viol, nstates, info := modelC36(fx, res.log)
 		st.Evals(nstates)
